@@ -29,9 +29,9 @@ pub fn check() -> Check {
         replay: |sub, case| -> Verdict { replay_lockstep(sub, case, FLAGS) },
         floor_quick: 2_000,
         floor_thorough: 50_000,
-        rule: "Random sessions as in C01 plus Cli::write (0-5 calls of write_str / writeln_str / uwrite! / write!, texts of printable characters, LF, CR LF, empty) and Cli::set_prompt from {empty, '$ ', '#', '###> ', Cyrillic} at arbitrary positions, \
+        rule: "Random sessions as in C01 plus Cli::write (0-5 calls of write_str / writeln_str / uwrite! / write!, texts of printable characters, LF, CR LF, empty) and Cli::set_prompt from {empty, '$ ', '#', one with 3- and 4-byte characters, Cyrillic} at arbitrary positions, \
                handler-side prompt changes and output; all sink bytes are fed to an ECMA-48 terminal emulator in lock-step. After every API call that returns Ok the emulator's current row (trailing blanks trimmed) must equal prompt + line (hook) and its cursor column chars(prompt) + cursor. \
-               Non-trivial = a write, prompt change, recall, completion or rejected character executed with the cursor strictly inside a non-empty line; distinct by (line, cursor, op).",
+               Non-trivial = a write, prompt change, recall, completion or rejected character executed with the cursor strictly inside a non-empty line; distinct by (line, cursor, op). Evaluations count every API call (input byte, application write, prompt change) that was followed by the oracle, plus one per session; a coverage-guided campaign (libFuzzer + ASan, 16 processes, same oracle inside the target) searches the same session space and what it keeps is re-run and classified here.",
         assumptions: &[
             "characters have display width 1 and the line does not wrap (as in the property's quantifier)",
             "emulator repertoire: printable, CR, LF, BS, CSI C/D/P/@/K/G with numeric parameters; any other sequence ends the case as inconclusive (exit 2), never as a violation",
